@@ -6,4 +6,6 @@ CONSTANTS
   MaxFaults = 2
   AllowClose = TRUE
   AllowSplit = TRUE
+  StartCached = TRUE
+  MarkBeforePut = TRUE
 INVARIANTS NoPanic OneEstablisher EstablisherOnlyWhileUnavailable StableEnd
